@@ -129,7 +129,7 @@ pub fn instrument(bytes: &[u8], plan: &[Probe], api: u8, removed: Option<usize>)
         let orig_api = api;
         let remove = |module: &mut Module, at: usize| {
             let f = fid(0);
-            if orig_api == 0 || orig_api == 3 {
+            if orig_api == 0 || orig_api == 3 || orig_api == 4 {
                 let mut it = ModuleIterator::new(module, &vec![]);
                 loop {
                     if let (Location::Module { func_idx, instr_idx }, _) = it.curr_loc() {
@@ -150,7 +150,7 @@ pub fn instrument(bytes: &[u8], plan: &[Probe], api: u8, removed: Option<usize>)
         };
         // the removal comes first through the strict modifier path and the finishing iterator path,
         // otherwise after the instruction-level probes (function-level probes stay last)
-        let removal_first = orig_api >= 2;
+        let removal_first = orig_api == 2 || orig_api == 3;
         if let (Some(at), true) = (removed, removal_first) {
             remove(&mut module, at);
         }
@@ -161,9 +161,12 @@ pub fn instrument(bytes: &[u8], plan: &[Probe], api: u8, removed: Option<usize>)
         // mode; the injected code must survive it)
         let strict = api == 2;
         let iter_finish = api == 3;
+        // api 4: module iterator, and the module is encoded TWICE (the second encoding is judged: lowering
+        // must leave nothing behind that a second pass lowers again); api 5: function modifier, and
+        // pull_side_effects() is called before the encoding
         let api = match api {
-            2 => 1,
-            3 => 0,
+            2 | 5 => 1,
+            3 | 4 => 0,
             a => a,
         };
         let mut ordered: Vec<&Probe> = if strict { plan.iter().collect() } else { plan.iter().filter(|p| !matches!(p.mode, Mode::FuncEntry | Mode::FuncExit)).collect() };
@@ -255,6 +258,12 @@ pub fn instrument(bytes: &[u8], plan: &[Probe], api: u8, removed: Option<usize>)
         }
         if let Some(at) = removal_pending.take() {
             remove(&mut module, at);
+        }
+        if orig_api == 4 {
+            let _ = module.encode();
+        }
+        if orig_api == 5 {
+            let _ = module.pull_side_effects();
         }
         module.encode()
     })
@@ -988,7 +997,7 @@ fn run_families(run: &mut Run, fams: &[Family], judged_modes: &[Mode], judge_beh
                     }
                 }
                 for (k, (plan, at)) in removal_cases.into_iter().enumerate() {
-                    let case = Case { program: prog.clone(), plan, api: [0u8, 1, 2, 3][(pi + k) % 4], removed: Some(at) };
+                    let case = Case { program: prog.clone(), plan, api: [0u8, 1, 2, 3, 4, 5][(pi + k) % 6], removed: Some(at) };
                     let r = match catch(|| judge(&case, false)) {
                         Ok(r) => r,
                         Err(p) => Err(format!("harness panic: {} at {}:{}", p.msg, p.file, p.line)),
@@ -996,7 +1005,7 @@ fn run_families(run: &mut Run, fams: &[Family], judged_modes: &[Mode], judge_beh
                     v.push((case, r));
                 }
                 for (k, (plan, forced_api)) in all_plans.into_iter().enumerate() {
-                    let api = forced_api.unwrap_or([0u8, 1, 3][(pi + k) % 3]);
+                    let api = forced_api.unwrap_or([0u8, 1, 3, 4, 5][(pi + k) % 5]);
                     let case = Case { program: prog.clone(), plan, api, removed: None };
                     let keep = tier == Tier::Thorough || (pi + k) % 97 == 0;
                     let r = match catch(|| judge(&case, keep)) {
@@ -1178,7 +1187,7 @@ pub fn check(id: &'static str, tier: Tier) -> i32 {
     };
     let nprog: usize = fams.iter().map(|f| f.programs.len()).sum();
     run.rule = format!(
-        "programs = ALL function bodies of the statement grammar (mark, nop, block, counted loop, if/else, br, br_if, br_table, return, unreachable, throw, call, return_call, global.set, store, trapping div; conditions over param a, param b, innermost loop counter) within the node/nesting bounds of each family ({} programs in {} families), smallest first; plans = ALL sets of <= p probes (`i32.const id; call $probe`) over the applicable (instruction, mode) pairs of the family's modes, applied through the module iterator and the function modifier alternately; every (program, plan) is instrumented by the real library, validated, and executed on all 9 inputs (a,b) in {{0,1,2}}^2 by the reference interpreter: results/trap, globals, memory and the mark sequence must equal the original's, and in every gap between marks the multiset of probe firings must equal what the monitor (DESIGN.md appendix A) derives from the original's execution. Families 'beside a construct removed': one probe plus one void block / loop of main removed (the probe anywhere outside it, or - block-entry / block-exit / semantic-after on a construct strictly inside it - expected never to fire) through an empty block alternate (every such pair, four call orders / API kinds rotated); the reference is then the program WITHOUT that construct (cut out of the body bytes, wirm not involved), probed at the corresponding place. Non-trivial class = multiset of (mode, instruction role) of the plan.",
+        "programs = ALL function bodies of the statement grammar (mark, nop, block, counted loop, if/else, br, br_if, br_table, return, unreachable, throw, call, return_call, global.set, store, trapping div; conditions over param a, param b, innermost loop counter) within the node/nesting bounds of each family ({} programs in {} families), smallest first; plans = ALL sets of <= p probes (`i32.const id; call $probe`) over the applicable (instruction, mode) pairs of the family's modes, applied through the module iterator and the function modifier alternately (rotating over: iterator, modifier, iterator with finish_instr(), iterator with the module encoded twice - the second encoding is judged -, modifier with pull_side_effects() before the encoding); every (program, plan) is instrumented by the real library, validated, and executed on all 9 inputs (a,b) in {{0,1,2}}^2 by the reference interpreter: results/trap, globals, memory and the mark sequence must equal the original's, and in every gap between marks the multiset of probe firings must equal what the monitor (DESIGN.md appendix A) derives from the original's execution. Families 'beside a construct removed': one probe plus one void block / loop of main removed (the probe anywhere outside it, or - block-entry / block-exit / semantic-after on a construct strictly inside it - expected never to fire) through an empty block alternate (every such pair, four call orders / API kinds rotated); the reference is then the program WITHOUT that construct (cut out of the body bytes, wirm not involved), probed at the corresponding place. Non-trivial class = multiset of (mode, instruction role) of the plan.",
         nprog,
         fams.len()
     );
